@@ -235,6 +235,47 @@ def odd_cases(base):
     return cases
 
 
+def incoq_trees(res, rows, limit=120):
+    """tie B(i): a slice of the trees is re-done inside Coq (Files.build_file evaluated by the kernel's VM)"""
+    def names(p):
+        return [x for x in p.split("/") if x]
+
+    def nn(p):
+        return "[" + "; ".join(C.nlist(x.encode()) for x in names(p)) + "]"
+    pick = []
+    for c, a, b in rows:
+        a = a.replace(" NAMED", "").replace(" UNNAMED", "")
+        t = P.obs_term(a)
+        if t is None or sum(len(x) for x in c["files"].values()) > 1500 or len(c["files"]) > 12:
+            continue
+        dirs = set()
+        for p in [c["cwd"]] + list(c["dirs"]) + [os.path.dirname(f) for f in c["files"]]:
+            n = names(p)
+            for k in range(1, len(n) + 1):
+                dirs.add("/" + "/".join(n[:k]))
+        term = "(build_tree 400000 %s [%s] [%s] %s [%s], %s)" % (
+            nn(c["cwd"]), "; ".join(nn(d) for d in sorted(dirs)),
+            "; ".join("(%s, %s)" % (nn(f), C.nlist(x.encode())) for f, x in c["files"].items()),
+            C.nlist(c["main"].encode()), "; ".join(C.nlist(p.encode()) for p in c["paths"]), t)
+        pick.append((term, c))
+        if len(pick) >= limit:
+            break
+    if not pick:
+        return
+    d = os.path.join(C.COQ, "Cases")
+    os.makedirs(d, exist_ok=True)
+    path = os.path.join(d, "c11_slice.v")
+    body = ("Require Import AvraV.Model.Base AvraV.Model.Observe.\nOpen Scope N_scope.\n"
+            "Definition cases : list (obs * obs) := [\n" + ";\n".join(t for t, _ in pick) + "].\n"
+            'Eval vm_compute in Report "slice" (failing (fun c => obs_eqb (fst c) (snd c)) cases) [].\n')
+    open(path, "w").write(body)
+    _, ok, out, secs = C.coqc_file(path, 900)
+    rep = C.parse_reports(out).get("slice")
+    good = ok and rep is not None and rep[0] == []
+    res.oblige("correspondence(in-Coq vm_compute): Files.build_file = builder::build_file on a slice of %d directory trees" % len(pick), good,
+               "" if good else (out[-300:] if rep is None else "differs on case(s) %s" % rep[0][:5]))
+
+
 def run(res):
     vh, exe = P.base(res, PROP)
     rng = random.Random(res.seed)
@@ -249,6 +290,7 @@ def run(res):
         rows = fsrun.run_cases(vh, exe, cases + odd)
     finally:
         fsrun.cleanup()
+    incoq_trees(res, rows)
     mism = [(c, a, b) for c, a, b in rows if not P.agree(a.replace(" NAMED", "").replace(" UNNAMED", ""), b)]
     res.oblige("correspondence(extracted model): Files.build_file = builder::build_file on %d directory trees (%d structured, %d odd-path)"
                % (len(rows), len(cases), len(odd)), not mism,
